@@ -845,6 +845,8 @@ class HierarchicalMachine(Machine):
             for state in args:
                 if isinstance(state, Enum):
                     state_path = self._get_enum_path(state)
+                elif isinstance(state, State) and self._get_state_path(state):
+                    state_path = self._get_state_path(state)  # a nested State object only knows its local name
                 else:
                     state_name = state.name if hasattr(state, 'name') else state
                     state_path = state_name.split(self.state_cls.separator)
